@@ -6,6 +6,7 @@ import (
 	"runtime"
 	"sort"
 	"strings"
+	"time"
 	"unsafe"
 
 	"github.com/ory/fosite/verifhook"
@@ -451,6 +452,8 @@ func (s *Sched) Run(bodies []func(), prefix []int) *Exec {
 type Explorer struct {
 	Bound     int // max preemptions (-1 = unbounded)
 	MaxExecs  int
+	MaxWall   time.Duration // per-job wall budget: a cap like MaxExecs (reported, never an error)
+	started   time.Time
 	Execs     int
 	Capped    bool
 	MaxPoints int
@@ -462,6 +465,14 @@ func (e *Explorer) explore(prefix []int) {
 	if e.MaxExecs > 0 && e.Execs >= e.MaxExecs {
 		e.Capped = true
 		return
+	}
+	if e.MaxWall > 0 {
+		if e.started.IsZero() {
+			e.started = time.Now()
+		} else if time.Since(e.started) > e.MaxWall {
+			e.Capped = true
+			return
+		}
 	}
 	x := e.run(prefix)
 	e.Execs++
